@@ -177,4 +177,27 @@ PROPS.update({
                      'clients do not write the library internals (_tag_counter, _tag_names, __dict__) directly']),
 })
 
+PROPS.update({
+    'C10': dict(
+        level_text='Deductive proof for all extents, centres and radii >= 0: the triple scan of get_moore_neighbours / '
+                   'get_neumann_neighbours is summarised by the lexicographic enumeration law; from it the coordinate form '
+                   'is proved sound (in grid, Chebyshev resp. Manhattan distance <= radius, centre only when asked), '
+                   'complete (every such cell is present - witness named by the law) and strictly ascending in cell '
+                   'order; the id form holds the ids of exactly those cells (source witness), strictly ascending '
+                   '(nonlinear monotonicity lemma) and complete; the generic entry point dispatches on the mode string; '
+                   'centre normalisation from id / tuple / position component has its own contracts.',
+        level_note='Centre given as coordinates in the scan contracts (other representations reduce to it through '
+                   '_get_cell_pos_as_tuple); fractional position components are checked in the real-number mode of '
+                   'that helper only; no wrapping; engine enumeration law.',
+        functions=['Environments.discrete_grid_pos_to_id', 'Environments.DiscreteWorld.get_moore_neighbours#tuple',
+                   'Environments.DiscreteWorld.get_neumann_neighbours#tuple',
+                   'Environments.DiscreteWorld.get_moore_neighbours#int',
+                   'Environments.DiscreteWorld.get_neumann_neighbours#int',
+                   'Environments.DiscreteWorld._get_cell_pos_as_tuple#id',
+                   'Environments.DiscreteWorld._get_cell_pos_as_tuple#tuple',
+                   'Environments.DiscreteWorld._get_cell_pos_as_tuple#component',
+                   'Environments.DiscreteWorld.get_neighbours'],
+        assumptions=GRID_ASSUME + ['lexicographic enumeration law for accumulation loops (engine semantics)']),
+})
+
 NOT_APPLICABLE = {}
